@@ -84,12 +84,14 @@ ENGINES = [
  dict(name="Lift", path="spec/Lift.tla", serves_properties=["C19"], kind_free_text="TLA+ Calendar + Lift + CalendarMC/LiftMC + LiftTrace"),
  dict(name="GeoJSON", path="spec/GeoJSON.tla", serves_properties=["C18"], kind_free_text="TLA+ read/write laws + GeoJSONMC + GeoJSONTrace"),
  dict(name="Convert", path="spec/Convert.tla", serves_properties=["C13"], kind_free_text="TLA+ boundary contract + ConvertMC + ConvertTrace"),
- dict(name="Store", path="spec/Store.tla", serves_properties=["C12", "C14"], kind_free_text="TLA+ file-system machine + StoreMC + StoreTrace"),
+ dict(name="Store", path="spec/Store.tla", serves_properties=["C12", "C14"], kind_free_text="TLA+ file-system machine (owners df/lod/geo, six formats x four suffixes x three encodings, foreign files, restrictions, dtype mappings, aliases) + StoreMC (behaviours) + StoreTrace"),
  dict(name="VectorCtor", path="spec/VectorCtor.tla", serves_properties=["C10"], kind_free_text="TLA+ construction/NA laws + VectorCtorMC + VectorCtorTrace monitor (TLC)"),
  dict(name="AggJit", path="spec/AggJit.tla", serves_properties=["C08"], kind_free_text="TLA+ JIT-state history machine + AggJitMC + AggJitTrace; harness/jit_runner.py subprocess executor"),
  dict(name="Agg", path="spec/Agg.tla", serves_properties=["C07"], kind_free_text="TLA+ helper definitions + AggMC + AggTrace monitor (TLC)"),
- dict(name="FrameSM", path="spec/FrameSM.tla", serves_properties=["C01", "C06"], kind_free_text="TLA+ session machine with buffer heap + FrameSMMC (exhaustive, action properties) + FrameSMTrace (history validation)"),
- dict(name="LoDSM", path="spec/LoDSM.tla", serves_properties=["C17"], kind_free_text="TLA+ session machine + LoDSMMC (exhaustive) + LoDSMTrace (history validation)"),
+ dict(name="FrameSM", path="spec/FrameSM.tla", serves_properties=["C01", "C06"], kind_free_text="TLA+ session machine with buffer heap (transforming calls, in-place edits through every dict route, constructor, observers) + FrameSMMC (exhaustive, action properties) + FrameSMGen (behaviours replayed) + FrameSMTrace (history validation)"),
+ dict(name="LoDSM", path="spec/LoDSM.tla", serves_properties=["C17", "C15"], kind_free_text="TLA+ session machine (item heap, share/deriv parents, flags, readers, poke + heap numbers) + LoDSMMC (exhaustive) + LoDSMGen (behaviours replayed on the class) + LoDSMTrace (history validation) + ObsMech (layer 2)"),
+ dict(name="VectorMisc", path="spec/VectorMisc.tla", serves_properties=["C11"], kind_free_text="beyond the listed properties: head/tail/drop_na/range/equal/concat/tolist/sample/map laws (VectorMiscMC) + VectorMiscTrace; a NOTE-only section of the C11 check"),
+ dict(name="Compare", path="spec/Compare.tla", serves_properties=["C05"], kind_free_text="beyond the listed properties: DataFrame.compare stated with the join operators (CompareMC laws) + CompareTrace; a NOTE-only section of the C05 check"),
  dict(name="LoDOps", path="spec/LoDOps.tla", serves_properties=["C15"], kind_free_text="TLA+ LoDOps reference semantics + LoDOpsMC + LoDOpsTrace monitor (TLC)"),
  dict(name="LoDJoin", path="spec/LoDJoin.tla", serves_properties=["C16"], kind_free_text="TLA+ LoDJoin predicates + LoDJoinMC + LoDJoinTrace monitor (TLC)"),
  dict(name="CombineOps", path="spec/CombineOps.tla", serves_properties=["C09"], kind_free_text="TLA+ CombineOps operators/predicates + CombineOpsMC + CombineOpsTrace monitor (TLC)"),
